@@ -18,10 +18,23 @@ structure Inv (s : State) : Prop where
   /-- the handler leaves its loop only after close -/
   ex : s.hpc = .exiting ∨ s.hpc = .dead → s.closed = true
   /-- a grace goroutine that woke by its timer waited the grace period -/
-  gt : ∀ (t : Tid) (g : Grace) (st : Nat), s.graces t = some g → g.woke = some (.timeout st) →
-        st + s.grace ≤ s.now
+  gt : ∀ (t : Tid) (g : Grace) (st : Nat) (b : Option (Tid × Nat)), s.graces t = some g →
+        g.woke = some (.timeout st b) → st + s.grace ≤ s.now ∧ b = g.launchedFor
   /-- a reader cancelled by a timer was cancelled no earlier than the grace period after the launch -/
-  tt : ∀ (t : Tid) (st : Nat), s.told t = some (.timeout st) → st + s.grace ≤ s.now
+  tt : ∀ (t : Tid) (st : Nat) (b : Option (Tid × Nat)), s.told t = some (.timeout st b) →
+        st + s.grace ≤ s.now ∧ (b = none → s.closed = true) ∧
+        (∀ w gw, b = some (w, gw) → 0 < gw ∧ gw ≤ s.gen w)
+  /-- who launched a grace goroutine: the section of a writer hold that really was requested
+  (`0 < gw ≤ gen w`), or the deferred launch at shutdown -/
+  gl : ∀ (t : Tid) (g : Grace), s.graces t = some g →
+        (g.launchedFor = none ↔ g.byShutdown = true) ∧
+        (∀ w gw, g.launchedFor = some (w, gw) → 0 < gw ∧ gw ≤ s.gen w)
+  /-- a caller inside a call has made at least one call -/
+  gp : ∀ (t : Tid), s.pcs t ≠ .idle → 0 < s.gen t
+  /-- every hold in `ch` or in the handler's hands was really requested -/
+  hg : ∀ (t : Tid) (g : Nat) (w : Bool),
+        (s.chBuf = some (t, g, w) ∨ s.hpc = .have t g w ∨ s.hpc = .slot t g w ∨ (s.hpc = .wait t g ∧ w = true)) →
+        0 < g ∧ g ≤ s.gen t
   /-- shutdown causes only after close -/
   gc : ∀ (t : Tid) (g : Grace), s.graces t = some g → (g.woke = some .closed ∨ g.byShutdown = true) →
         s.closed = true
@@ -38,7 +51,7 @@ macro "oc_close" : tactic =>
 
 set_option maxHeartbeats 4000000 in
 theorem inv_step (s : State) (a : L) (s' : State) (h : Inv s) (hs : lts.step s a = some s') : Inv s' := by
-  obtain ⟨lv, pn, cn, hn, ex, gt, tt, gc, tc, gd, td⟩ := h
+  obtain ⟨lv, pn, cn, hn, ex, gt, tt, gl, gp, hg, gc, tc, gd, td⟩ := h
   cases a with
   | call t op =>
     cases op <;> simp only [lts, step, stepCore] at hs <;> split at hs <;> (try split at hs) <;> simp at hs <;> subst hs
@@ -54,7 +67,7 @@ theorem inv_step (s : State) (a : L) (s' : State) (h : Inv s) (hs : lts.step s a
     all_goals oc_close
   | probe t p =>
     cases p <;> simp only [lts, step, stepCore] at hs <;> (repeat' split at hs) <;> simp at hs <;> subst hs <;>
-      exact ⟨lv, pn, cn, hn, ex, gt, tt, gc, tc, gd, td⟩
+      exact ⟨lv, pn, cn, hn, ex, gt, tt, gl, gp, hg, gc, tc, gd, td⟩
   | sys i alt =>
     match i with
     | 0 =>
